@@ -18,6 +18,7 @@ code->spec: every configured reserved word with prefixed/suffixed/cased variants
          specs/StroppingTrace.tla (P-layer operators) judges every record, and cross-checks its regex matcher against Python's.
 """
 import copy
+import gc
 import json
 import keyword
 import os
@@ -561,6 +562,28 @@ class Observer:
             k = r["key"]
             e, o, _ = ask(fresh[k[0]], k[2], k[1])
             r["obs"].append(("fresh", e, o))
+        # (b') churn: short-lived language objects of ALTERNATING configurations, each dropped before the next is made (an answer must not depend on
+        # what an earlier, already collected object of another configuration had computed - e.g. through a store keyed by object identity)
+        budget = max(0, 400 - getattr(self, "_churned", 0))
+        sample = recs[:: max(1, len(recs) // 60)][:min(60, budget // 2)]
+        by_lang = {}
+        for cid in sorted(self.cfgs):
+            by_lang.setdefault(self.cfgs[cid].lang, []).append(cid)
+        for n, r in enumerate(sample):
+            k = r["key"]
+            lang = self.cfgs[k[0]].lang
+            others = [c for c in by_lang[lang] if c != k[0]] or [k[0]]
+            oc = self.cfgs[others[n % len(others)]]
+            tmp = mk_lang(oc.lang, oc.overrides)
+            ask(tmp, k[2], k[1])
+            del tmp
+            gc.collect()
+            tmp = mk_lang(lang, self.cfgs[k[0]].overrides)
+            e, o, _ = ask(tmp, k[2], k[1])
+            del tmp
+            gc.collect()
+            r["obs"].append(("churn", e, o))
+        self._churned = getattr(self, "_churned", 0) + 2 * len(sample)
         # (c) second process, other hash seed
         th.join()
         if child.returncode != 0:
